@@ -109,6 +109,15 @@ func withWatchdog(w *W, idx int, caseID string, limit time.Duration, fn func()) 
 	buf := make([]byte, 8<<20)
 	buf = buf[:runtime.Stack(buf, true)]
 	blocked, active, sample := classifyGoroutines(string(buf))
+	// a goroutine inside the library that has been waiting for a lock for at least half of the limit while
+	// others keep running will never get it either (Go's RWMutex does not starve writers; no wait in these
+	// workloads is longer than a commit): e.g. a leaked read latch that only the growing commit runs into
+	if starved, ssample := longBlocked(string(buf), int(limit/time.Minute)/2); starved > 0 && !(blocked > 0 && active == 0) {
+		w.Violate(idx, caseID, fmt.Sprintf("[deadlock] the round did not complete within %s: %d goroutine(s) inside the library have been blocked in a lock wait for minutes while %d others keep running:\n%s", limit, starved, active, ssample), "",
+			map[string]any{"idx": idx, "race": true, "engine": "E3", "kind": "hang"})
+		w.flush(false)
+		os.Exit(77)
+	}
 	if len(buf) > 256<<10 {
 		buf = buf[:256<<10]
 	}
@@ -295,4 +304,31 @@ func collectRaces(d *Driver) {
 			Detail: fmt.Sprintf("DATA RACE (%d reports) %s\n%s", seen[p], p, text), Replay: mustJSON(map[string]any{"phase": 0, "idx": 0, "race": true, "pair": p})})
 		d.Merged.Notes = append(d.Merged.Notes, fmt.Sprintf("race pair %s: %d reports, classified %q", p, seen[p], kf))
 	}
+}
+
+var waitMinutes = regexp.MustCompile(`^goroutine \d+ \[(sync\.[A-Za-z.]+|semacquire), (\d+) minutes\]`)
+
+// longBlocked counts goroutines with library frames that the runtime reports as blocked in a
+// sync wait for at least minMinutes (the runtime prints the wait time from one minute on).
+func longBlocked(dump string, minMinutes int) (n int, sample string) {
+	if minMinutes < 1 {
+		minMinutes = 1
+	}
+	for _, g := range strings.Split(dump, "\n\n") {
+		m := waitMinutes.FindStringSubmatch(g)
+		if m == nil || !strings.Contains(g, "kelindar/column") || strings.Contains(g, "(*Collection).vacuum") {
+			continue
+		}
+		if mins, _ := strconv.Atoi(m[2]); mins >= minMinutes {
+			n++
+			if len(sample) < 2500 {
+				lines := strings.Split(g, "\n")
+				if len(lines) > 14 {
+					lines = lines[:14]
+				}
+				sample += strings.Join(lines, "\n") + "\n\n"
+			}
+		}
+	}
+	return
 }
